@@ -234,7 +234,7 @@ fn code(n: Nm) -> u8 {
     }
 }
 /// Address record; the address encodes owner and index so that every record is distinguishable.
-fn addr(ns: &NameSet, n: Nm, idx: u8, v6: bool) -> Rec {
+pub fn addr(ns: &NameSet, n: Nm, idx: u8, v6: bool) -> Rec {
     let data = if v6 {
         let mut a = [0u8; 16];
         a[0] = 0xfd;
@@ -247,7 +247,7 @@ fn addr(ns: &NameSet, n: Nm, idx: u8, v6: bool) -> Rec {
     };
     Rec { owner: ns.get(n).clone(), data }
 }
-fn cname(ns: &NameSet, a: Nm, b: Nm) -> Rec {
+pub fn cname(ns: &NameSet, a: Nm, b: Nm) -> Rec {
     Rec { owner: ns.get(a).clone(), data: RData::Cname(ns.get(b).clone()) }
 }
 
@@ -361,8 +361,13 @@ impl Asm {
 
 /// Build the DNS payload for `spec` answering a query (name set `ns`, `qtype`) with `txid`.
 pub fn build_payload(ns: &NameSet, qtype: u16, spec: &RSpec, txid: u16, result_slots: usize) -> Vec<u8> {
+    let recs = records(ns, spec.ans, qtype == T_AAAA, result_slots);
+    build_with_records(ns, qtype, spec, txid, &recs)
+}
+
+/// Same, with an explicit answer section (`spec.ans` is ignored).
+pub fn build_with_records(ns: &NameSet, qtype: u16, spec: &RSpec, txid: u16, recs: &[Rec]) -> Vec<u8> {
     let v6 = qtype == T_AAAA;
-    let recs = records(ns, spec.ans, v6, result_slots);
     let mut forced: Vec<(Pos, Target)> = vec![];
     match spec.enc {
         Enc::Back | Enc::Plain => {}
